@@ -30,9 +30,25 @@ def load_known():
     return data
 
 
+_KNOWN_INPUTS_DIR = os.path.join(VERIF, "known_inputs")
+
+
+def known_inputs_for(fid, pid, tier):
+    """The committed set of input hashes on which listed finding `fid` shows in check `pid` at `tier` on the pinned tree;
+    None when no list was recorded for that tier (then the finding is identified by its call site alone)."""
+    path = os.path.join(_KNOWN_INPUTS_DIR, f"{fid}-{pid}-{tier}.txt")
+    if not os.path.exists(path):
+        return None
+    with open(path) as f:
+        return set(line.strip() for line in f if line.strip())
+
+
 def known_for(pid):
     """Known (unrepaired) findings that are listed for this property."""
     return [k for k in load_known().get("known", []) if pid in k.get("properties", [])]
+
+
+REPLAY_KNOWN_HITS = None      # set to a dict by a replay: finding id -> input hashes attributed during the replay
 
 
 class Stats:
@@ -42,6 +58,7 @@ class Stats:
         self.c = {}
         self.violations = []     # list of dict(case)
         self.known = {}          # finding id -> [count, first example]
+        self.known_inputs = {}   # finding id -> {short hash of the failing input: example}
         self.samples = []
         self.outcomes = {}       # distinct observed outcome classes -> count
         self.maxima = {}
@@ -62,9 +79,16 @@ class Stats:
             self.violations.append(case)
         self.inc("violations")
 
-    def known_hit(self, fid, example):
+    def known_hit(self, fid, example, key=None, case=None):
+        """A discrepancy attributed to listed finding `fid`.  `key` identifies the failing input (term, variable, pool):
+        Run.finish compares it with the committed list of inputs that fail on the pinned tree."""
         slot = self.known.setdefault(fid, [0, example])
         slot[0] += 1
+        if key is not None:
+            h = hashlib.blake2b(str(key).encode(), digest_size=6).hexdigest()
+            self.known_inputs.setdefault(fid, {}).setdefault(h, (str(example)[:300], case))
+            if REPLAY_KNOWN_HITS is not None:
+                REPLAY_KNOWN_HITS.setdefault(fid, set()).add(h)
 
     def sample(self, s, cap=4):
         if len(self.samples) < cap:
@@ -83,6 +107,10 @@ class Stats:
         for fid, (n, ex) in other.known.items():
             slot = self.known.setdefault(fid, [0, ex])
             slot[0] += n
+        for fid, table in getattr(other, "known_inputs", {}).items():
+            mine = self.known_inputs.setdefault(fid, {})
+            for h, ex in table.items():
+                mine.setdefault(h, ex)
         for s in other.samples:
             if len(self.samples) < 12:
                 self.samples.append(s)
@@ -283,10 +311,29 @@ class Run:
         st = self.stats
         listed = {k["id"]: k for k in known_for(self.pid)}
         # known findings observed
+        record_dir = os.environ.get("SMV_RECORD_KNOWN_INPUTS")
         for fid, (n, ex) in sorted(st.known.items()):
             if fid in listed:
                 print(f"KNOWN-FINDING: property={self.pid} {fid} {listed[fid]['what']} "
                       f"[{n} explored cases attributed; e.g. {ex}]", flush=True)
+                observed = st.known_inputs.get(fid, {})
+                if record_dir:
+                    # maintenance mode (tools/record_known_inputs.py): the inputs attributed on the pinned tree are
+                    # written to a scratch directory; a check never writes /verif/known_inputs itself
+                    os.makedirs(record_dir, exist_ok=True)
+                    with open(os.path.join(record_dir, f"{fid}-{self.pid}-{self.tier}.txt"), "w") as f:
+                        f.write("".join(h + "\n" for h in sorted(observed)))
+                    continue
+                recorded = known_inputs_for(fid, self.pid, self.tier)
+                if recorded is not None:
+                    new = [(h, e) for h, e in sorted(observed.items()) if h not in recorded]
+                    for h, (e, vcase) in new[:5]:
+                        c = dict(vcase) if isinstance(vcase, dict) else {}
+                        c.update({
+                            "why": f"the discrepancy sits at the call site of known finding {fid}, but this input is not one "
+                                   f"of the inputs that fail on the pinned tree (known_inputs/{fid}-{self.pid}-{self.tier}.txt): {e}",
+                            "unlisted_known_finding_input": fid, "input_hash": h, "unlisted_inputs": len(new), "tier": self.tier})
+                        self.report_violation(c)
             else:
                 # attributed to a finding that is not listed for this property: that is a violation
                 self.report_violation({"why": f"cases attributed to unlisted finding {fid}", "example": ex})
